@@ -126,6 +126,8 @@ def atom_key(a):
         op, l, r = a[1], a[2], a[3]
         if op in ('==', 'is', '!=', 'is not'):
             return ('eq', frozenset((l, r))), op in ('==', 'is')
+        if op == 'not in':
+            return ('cmp', 'in', l, r), False
         flip = {'<': '>', '>': '<', '<=': '>=', '>=': '<='}
         if op in ('>', '>='):               # keep one orientation
             return ('cmp', flip[op], r, l), True
